@@ -139,7 +139,13 @@ func checkStrPositions(c *core.Ctx, s string, b []byte, desc string) {
 	report := func(stage, kind, msg, detail string) {
 		c.Report(&core.Violation{Stage: stage, Kind: kind, Shape: "positions", Message: msgClass(msg), Case: desc, Detail: detail})
 	}
-	h := &StrPos{S: s, L: []string{s, "m", s, "n", s}, MK: map[string]int32{s: 5}, MV: map[string]string{"k": s}, B: b, LB: [][]byte{b, {9}, b}, End: 3}
+	// the last binary has the same length and other content: a decoder that hands out views of one scratch
+	// buffer would make the earlier ones equal to it
+	b2 := make([]byte, len(b))
+	for i := range b {
+		b2[i] = ^b[i]
+	}
+	h := &StrPos{S: s, L: []string{s, "m", s, "n", s}, MK: map[string]int32{s: 5}, MV: map[string]string{"k": s}, B: b, LB: [][]byte{b, {9}, b2}, End: 3}
 	tm, nm, _ := Maps(h)
 	enc := Encode(h, nm)
 	if !enc.OK() {
@@ -178,7 +184,7 @@ func checkStrPositions(c *core.Ctx, s string, b []byte, desc string) {
 		bad = "map value"
 	case !bytes.Equal(d.B, b):
 		bad = "struct field []byte"
-	case len(d.LB) != 3 || !bytes.Equal(d.LB[0], b) || !bytes.Equal(d.LB[1], []byte{9}) || !bytes.Equal(d.LB[2], b):
+	case len(d.LB) != 3 || !bytes.Equal(d.LB[0], b) || !bytes.Equal(d.LB[1], []byte{9}) || !bytes.Equal(d.LB[2], b2):
 		bad = fmt.Sprintf("[][]byte elements (len %d)", len(d.LB))
 	case d.End != 3:
 		bad = "field after the containers"
